@@ -378,11 +378,19 @@ class PopulationBalanceModel:
             self.reset()
         else:
             oldV = self.ThirdMoment()
+            oldPSD, oldBounds = self.PSD, self.PSDbounds
             distDen = self.PSD / (self.PSDbounds[1:] - self.PSDbounds[:-1])
             rOld = 0.5 * (self.PSDbounds[1:] + self.PSDbounds[:-1])
             self.reset(False)
             self.PSD = np.interp(self.PSDsize, rOld, distDen) * (self.PSDbounds[1:] - self.PSDbounds[:-1])
             newV = self.ThirdMoment()
+            if newV == 0 and oldV != 0:
+                #The new size classes are so much wider that none of their centers is next to a filled
+                #   size class, so sampling the density gives 0 everywhere and all particles would be dropped
+                #Distribute the particles by the overlap of the old and new size classes instead
+                cumN = np.concatenate(([0], np.cumsum(oldPSD)))
+                self.PSD = np.diff(np.interp(self.PSDbounds, oldBounds, cumN))
+                newV = self.ThirdMoment()
             if newV != 0:
                 self.PSD *= oldV / newV
             else:
